@@ -370,9 +370,18 @@ def deep_defaults_part(ctx, dist):
                 return len(inner(acc))
         node = FunctionNode(body, name="body", output_name="count")
         G = Graph([node])
-        if rng.random() < 0.4:
+        mapped = False
+        r_ = rng.random()
+        if r_ < 0.3:
             G = Graph([G.as_node(name="wrapped")])
+        elif r_ < 0.5:
+            # the items of a mapping node are runs of their own: no item may see what another put into the default
+            G = Graph([Graph([G.as_node(name="item").map_over("x")], name="m").as_node(name="pick"),
+                       FunctionNode(lambda count: max(count), name="mx", output_name="peak")])
+            mapped = True
         runs = rng.randint(2, 4)
+        XIN = {"x": [7, 7, 7]} if mapped else {"x": 7}
+        OUT = "peak" if mapped else "count"
         results = []
         try:
             if is_async:
@@ -380,18 +389,18 @@ def deep_defaults_part(ctx, dist):
 
                 async def go():
                     if rng.random() < 0.5:
-                        return [r["count"] for r in await asyncio.gather(*[runner.run(G, {"x": 7}) for _ in range(runs)])]
-                    return [(await (runner if rng.random() < 0.5 else AsyncRunner()).run(G, {"x": 7}))["count"] for _ in range(runs)]
+                        return [r[OUT] for r in await asyncio.gather(*[runner.run(G, XIN) for _ in range(runs)])]
+                    return [(await (runner if rng.random() < 0.5 else AsyncRunner()).run(G, XIN))[OUT] for _ in range(runs)]
                 results = asyncio.run(go())
             else:
                 runner = SyncRunner()
-                results = [(runner if rng.random() < 0.5 else SyncRunner()).run(G, {"x": 7})["count"] for _ in range(runs)]
+                results = [(runner if rng.random() < 0.5 else SyncRunner()).run(G, XIN)[OUT] for _ in range(runs)]
         except Exception as e:  # noqa: BLE001
             ctx.violation("oracle", f"run with a {shape} default raised {type(e).__name__}: {e}", case={"default_shape": shape, "async": is_async})
             continue
         n += runs
         dist["deep_defaults"] = dist.get("deep_defaults", 0) + 1
-        case = {"default_shape": shape, "async": is_async, "runs": runs}
+        case = {"default_shape": shape, "async": is_async, "runs": runs, "mapped_items": mapped}
         if snap(default) != pristine:
             ctx.violation("oracle", f"the signature default ({shape}) was modified by the runs: inner object is now {snap(default)}, was {pristine}", case=case)
         if any(sv != pristine for sv in seen):
